@@ -1,7 +1,7 @@
 """C02  Mass matrix is the exact piecewise-linear L2 inner product."""
 import numpy as np
 
-from .. import core, femcommon as fc
+from .. import core, femcommon as fc, gen_mesh as gm
 
 ID = "C02"
 LIMIT = 30.0
@@ -23,6 +23,21 @@ COQ_LABELS = ["A_values", "A_support", "A_dim", "B_values", "B_support", "B_dim"
 def generate(rng, tier):
     nt, nq = (60, 30) if tier == "quick" else (500, 250)
     cases = fc.fem_mesh_cases(rng, tier, nt, nq)
+    # strips of flat "cap" triangles (base 0.3, height h): valid, far from round-off, but with an obtuse angle close to 180 degrees
+    for _ in range(6 if tier == "quick" else 40):
+        N = rng.randint(2, 8)
+        h, w = rng.choice([1e-3, 1e-5, 1e-6]), rng.choice([0.3, 1.0])
+        v = [[w * k, 0.0, 0.0] for k in range(N + 1)] + [[w * (k + 0.5), h, 0.0] for k in range(N)]
+        t = []
+        for k in range(N):
+            t.append([k, k + 1, N + 1 + k])
+            if k + 1 < N:
+                t.append([N + 1 + k, k + 1, N + 2 + k])
+        if len(t) < 3:
+            continue
+        if rng.random() < 0.5:
+            v, _, _, _ = gm.similarity(v, rng, scale=1.0)
+        cases.append({"kind": "tria", "family": "cap_strip", "v": v, "t": t, "lump": rng.random() < 0.5, "vdtype": "float64", "tdtype": "int64"})
     for k, c in enumerate(cases):
         n = len(c["v"])
         c["x"] = [rng.uniform(-1, 1) for _ in range(n)]
